@@ -355,4 +355,36 @@ theorem fromLen_sub {a b : Nat} (h : b ≤ a) : fromLen (a - b) = fromLen a - fr
   rw [← this] at e
   omega
 
+
+/-! ### the `IndexSet` (no duplicates) invariant of bounds used for a non-fungible resource -/
+
+def WFn (b : Bounds) : Prop := b.required.Nodup ∧ ∀ l, b.allowed = .allowlist l → l.Nodup
+
+theorem normalize_WFn (g : General) (hw : WFn g) : WFn g.normalize := by
+  obtain ⟨hr, hl⟩ := hw
+  cases hal : g.allowed with
+  | any =>
+    rw [normalize_any g hal]
+    split
+    · refine ⟨hr, ?_⟩
+      intro l h; simp only [AllowedIds.allowlist.injEq] at h; subst h; exact hr
+    · exact ⟨hr, by intro l h; cases h⟩
+  | allowlist l =>
+    have hln := hl l hal
+    rw [normalize_allowlist g l hal]
+    split
+    · split
+      · refine ⟨hr, ?_⟩
+        intro l' h; simp only [AllowedIds.allowlist.injEq] at h; subst h; exact hr
+      · split
+        · refine ⟨hln, ?_⟩
+          intro l' h; simp only [AllowedIds.allowlist.injEq] at h; subst h; exact hln
+        · refine ⟨hr, ?_⟩
+          intro l' h; simp only [AllowedIds.allowlist.injEq] at h; subst h; exact hln
+    · refine ⟨hr, ?_⟩
+      intro l' h; simp only [AllowedIds.allowlist.injEq] at h; subst h; exact hln
+
+theorem nodup_intersection {l o : List Nat} (h : l.Nodup) : (intersection l o).Nodup := by
+  unfold intersection; exact h.filter _
+
 end Radix.ResBounds
